@@ -40,6 +40,7 @@ func init() {
 			{ID: "C09-R14", Title: "the state of an iteration is per consumer (shared with C10)", Floor: 5, Run: iterationStateIsPerConsumer},
 			{ID: "C09-R15", Title: "channel objects have no plainly written fields", Floor: 1, Run: sharedObjectFieldsAreNotPlainWritten},
 			{ID: "C09-R16", Title: "an evaluation closes only the files it opened", Floor: 1, Run: evaluationsCloseOnlyWhatTheyOpened},
+			{ID: "C09-R17", Title: "state of a shared OS that scripts change is accessed under one lock", Floor: 1, Run: sharedOSStateIsLocked},
 		},
 	})
 }
